@@ -233,6 +233,9 @@ class TEBDWorld(World):
             # site term distribution over all covering edges, caches
             "graph": r.random() < 0.12,
             "graph_seed": r.randrange(2**31),
+            # progress bars (the library default) thread a bar object through
+            # step(); the real tqdm classes run with output disabled
+            "progbar": r.random() < 0.3,
         }
 
     # ------------------------------------------------------------------ setup
@@ -248,6 +251,21 @@ class TEBDWorld(World):
         self._had_id = "id" in tebd_mod.__dict__
         self._old_id = tebd_mod.__dict__.get("id")
         tebd_mod.id = self.alloc.key
+        self._unpatch_bars = None
+        if knobs.get("progbar"):
+            import functools
+
+            import quimb.tensor.tn1d.tebd as t1d
+
+            saved = (t1d.continuous_progbar, t1d.Progbar)
+            t1d.continuous_progbar = functools.partial(saved[0], disable=True)
+            t1d.Progbar = functools.partial(saved[1], disable=True)
+
+            def unpatch():
+                t1d.continuous_progbar, t1d.Progbar = saved
+
+            self._unpatch_bars = unpatch
+            stats.probe("progbar_runs")
         self.L = knobs["L"]
         self.cyclic = knobs["cyclic"]
         self.model, self.ham = self._build_ham()
@@ -255,6 +273,8 @@ class TEBDWorld(World):
         self.evolved = 0.0
 
     def close(self):
+        if getattr(self, "_unpatch_bars", None):
+            self._unpatch_bars()
         m = self.tebd_mod
         if self._had_id:
             m.id = self._old_id
@@ -619,7 +639,8 @@ class TEBDWorld(World):
         elif op["default"] == "tol":
             kw["tol"] = 1e-3
         cutoff = 1e-13 if self.cyclic else 0.0
-        st, tebd = self.call(lambda: qtn.TEBD(psi0, self.ham, t0=op["t0"], imag=op["imag"], progbar=False,
+        st, tebd = self.call(lambda: qtn.TEBD(psi0, self.ham, t0=op["t0"], imag=op["imag"],
+                                              progbar=bool(self.knobs.get("progbar")),
                                               split_opts={"cutoff": cutoff}, **kw))
         if st == "rejected":
             raise Violation("C11/rejected_valid_input", repr(tebd))
@@ -718,7 +739,8 @@ class TEBDWorld(World):
         if kind not in ("backwards",):
             nst = 1 if target - t <= dt else int(math.ceil((target - t) / dt))
             self._charge(T, nst, order)
-        st, res = self.call(lambda: tebd.update_to(target, progbar=False, **kw))
+        # (progbar=None: the object's own setting)
+        st, res = self.call(lambda: tebd.update_to(target, progbar=None if self.knobs.get("progbar") else False, **kw))
         if st == "rejected":
             if kind == "backwards":
                 self.stats.probe("backwards_rejected")
@@ -770,7 +792,8 @@ class TEBDWorld(World):
         t = T["t"]
         ts = [t + f * op["dt"] for f in op["fracs"]]
         arg = list(reversed(ts)) if op.get("shuffle") else list(ts)
-        st, gen = self.call(lambda: T["obj"].at_times(arg, dt=op["dt"], order=op["order"], progbar=False))
+        st, gen = self.call(lambda: T["obj"].at_times(arg, dt=op["dt"], order=op["order"],
+                                                       progbar=None if self.knobs.get("progbar") else False))
         if st == "rejected":
             raise Skip()
         T["gen"] = {"it": gen, "ts": sorted(ts), "dt": op["dt"], "order": op["order"], "pos": 0}
